@@ -350,13 +350,13 @@ Proof.
         sp; cbn; auto; try discriminate. intros _. split; auto. apply last_full_nonempty in LF. exact LF. }
     destruct (alloc (am a1') TAG_ABLK 1 h2) as [h3 [bs|]] eqn:A1.
     2:{ inversion E; subst. split; [apply ainv_intro; auto; eapply linv_throw; eauto|].
-        sp; cbn; auto; try discriminate. intros Fz. exfalso. eapply NF; eauto. }
+        sp; cbn; auto; try discriminate. intros Fz. exfalso. eapply (NF _ _ _ (F2 Fz)); eauto. }
     pose proof (linv_alloc _ _ _ _ _ _ _ I1' A1) as I3.
     assert (F3 : fuse h = None -> fuse h3 = None).
     { intros Fz. destruct (alloc_nofuse (am a1') TAG_ABLK 1 h2 (F2 Fz)) as [hx [Ax Fx]]. rewrite Ax in A1. inversion A1; subst; auto. }
     destruct (alloc (am a1') TAG_ASTORE (absize a1') h3) as [h4 [st|]] eqn:A2.
     2:{ inversion E; subst. split; [apply ainv_intro; auto; apply linv_free; eapply linv_throw; eauto|].
-        sp; cbn; auto; try discriminate. intros Fz. exfalso. eapply NF; eauto. }
+        sp; cbn; auto; try discriminate. intros Fz. exfalso. eapply (NF _ _ _ (F3 Fz)); eauto. }
     pose proof (linv_alloc _ _ _ _ _ _ _ I3 A2) as I4.
     assert (F4 : fuse h = None -> fuse h4 = None).
     { intros Fz. destruct (alloc_nofuse (am a1') TAG_ASTORE (absize a1') h3 (F3 Fz)) as [hx [Ax Fx]]. rewrite Ax in A2. inversion A2; subst; auto. }
@@ -373,7 +373,8 @@ Proof.
         eapply linv_perm; [|exact I5]. unfold am in *. cbn [alist] in *. rewrite M5.
         unfold blocks_owned at 3. unfold bowned. cbn. permp.
       + sp; cbn; auto; try discriminate; try congruence.
-        intros _. split; auto. destruct (ablocks a); discriminate.
+        * unfold am in *; cbn in *; congruence.
+        * intros _. split; auto. destruct (ablocks a); discriminate.
     - destruct (T5 eq_refl) as [-> L]. split.
       + apply ainv_intro; auto. eapply linv_perm; [|exact I5]. permp.
       + sp; cbn; auto; try discriminate.
